@@ -177,18 +177,18 @@ Proof.
   (* the tail of the proof once orig is known *)
   assert (Tail : forall orig,
     (ss (cls (out b1 ++ zskipn (idx b) (info b1)))
-        (cls (out b1 ++ map (fun i => mkG (cl orig) (gf orig) (rest orig) (oget c (cp orig) i) (oget g (gid orig) i)) (seq 0 (Z.to_nat L))
+        (cls (out b1 ++ map (fun i => mkGX (cl orig) (gf orig) (rest orig) (oget c (cp orig) i) (oget g (gid orig) i) (up orig) (gp orig)) (seq 0 (Z.to_nat L))
               ++ zskipn (idx b + k) (info b1)))) ->
     okwf lo hi b
       (if (match c with Some l => zlen l <? L | None => false end) || (match g with Some l => zlen l <? L | None => false end) then Panic 1
-       else Ok (with_idx (with_out b1 (out b1 ++ map (fun i => mkG (cl orig) (gf orig) (rest orig) (oget c (cp orig) i) (oget g (gid orig) i)) (seq 0 (Z.to_nat L))))
+       else Ok (with_idx (with_out b1 (out b1 ++ map (fun i => mkGX (cl orig) (gf orig) (rest orig) (oget c (cp orig) i) (oget g (gid orig) i) (up orig) (gp orig)) (seq 0 (Z.to_nat L))))
                          (idx b + k)))).
   { intros orig S. rewrite Hlen. eexists. split; [reflexivity|]. split; [|exact L1].
     apply (WF_ss lo hi b1); auto; cbn [idx info with_idx with_out level]; try lia.
     rewrite Hb1. rewrite (bseq_have (with_idx _ _)) by (cbn; congruence). cbn [idx info out with_idx with_out].
     rewrite <- app_assoc. exact S. }
   assert (Hnew : forall orig, Forall (fun x => x = cl orig)
-            (cls (map (fun i => mkG (cl orig) (gf orig) (rest orig) (oget c (cp orig) i) (oget g (gid orig) i)) (seq 0 (Z.to_nat L))))).
+            (cls (map (fun i => mkGX (cl orig) (gf orig) (rest orig) (oget c (cp orig) i) (oget g (gid orig) i) (up orig) (gp orig)) (seq 0 (Z.to_nat L))))).
   { intros orig. unfold cls. rewrite map_map. cbn [cl]. apply Forall_const_map. }
   destruct (Z.ltb_spec (idx b) (zlen (info b))) as [Hin|Hend].
   - rewrite getg_ok by lia. cbn [bind]. apply Tail. set (orig := nth (Z.to_nat (idx b)) (info b1) g0).
@@ -859,69 +859,6 @@ Proof.
   - rewrite bseq_nohave by (cbn; exact Hh'). cbn [info with_pos with_info]. exact Hr'.
 Qed.
 
-(* ---------- every operation, every sequence of operations ---------- *)
-
-Lemma op_step lo hi o b : (level b =? 2) = false -> WF lo hi b = true -> pre o b = true ->
-  exists b', run_op o b = Ok b' /\ WF lo hi b' = true /\ (level b' =? 2) = false.
-Proof.
-  intros Hl Hw Hp.
-  assert (G : forall r : res buffer, okwf lo hi b r -> exists b', r = Ok b' /\ WF lo hi b' = true /\ (level b' =? 2) = false).
-  { intros r (b' & E & W & L). exists b'. rewrite L. auto. }
-  destruct (WF_parts lo hi b Hl Hw) as (I0 & I1 & _).
-  pose proof (flag_ops_same_cl o b Hl I0 I1 Hp) as FS.
-  destruct o; cbn [run_op]; apply G; try (apply flag_setter_wf; assumption).
-  - apply next_glyph_wf; assumption.
-  - apply next_glyphs_wf; assumption.
-  - apply skip_glyph_wf; assumption.
-  - apply copy_glyph_wf; assumption.
-  - apply replace_glyph_index_wf; assumption.
-  - apply replace_glyphs_wf; assumption.
-  - apply delete_glyph_wf; assumption.
-  - apply delete_glyphs_inplace_wf; assumption.
-  - apply merge_clusters_wf; assumption.
-  - apply merge_out_clusters_wf; assumption.
-  - apply move_to_wf; assumption.
-  - apply shift_forward_wf; assumption.
-  - apply swap_buffers_wf; assumption.
-  - apply clear_output_wf; assumption.
-  - apply remove_output_wf; assumption.
-  - apply clear_positions_wf; assumption.
-  - apply reverse_range_wf; assumption.
-  - apply reverse_wf; assumption.
-  - apply reverse_clusters_wf; assumption.
-  - apply propagate_wf; assumption.
-Qed.
-
-(* the preconditions hold along the run *)
-Fixpoint pres_hold (os : list op) (b : buffer) : Prop :=
-  match os with
-  | [] => True
-  | o :: r => pre o b = true /\ forall b', run_op o b = Ok b' -> pres_hold r b'
-  end.
-
-Lemma run_ops_cons o r b x : run_op o b = Ok x -> run_ops (o :: r) b = run_ops r x.
-Proof. intros E. unfold run_ops. cbn [fold_left bind]. rewrite E. reflexivity. Qed.
-
-Lemma buffer_ops_preserve_wf_lemma lo hi : forall os b,
-  (level b =? 2) = false -> WF lo hi b = true -> pres_hold os b ->
-  exists b', run_ops os b = Ok b' /\ WF lo hi b' = true.
-Proof.
-  induction os as [|o r IH]; intros b Hl Hw Hp.
-  - exists b. split; [reflexivity|exact Hw].
-  - destruct Hp as [Hpo Hpr].
-    destruct (op_step lo hi o b Hl Hw Hpo) as (b1 & E & W1 & L1).
-    destruct (IH b1 L1 W1 (Hpr b1 E)) as (b2 & E2 & W2).
-    exists b2. rewrite (run_ops_cons o r b b1 E). auto.
-Qed.
-
-(* no operation panics (or runs out of fuel) under WF and its precondition *)
-Lemma buffer_ops_no_panic_lemma lo hi o b : (level b =? 2) = false -> WF lo hi b = true -> pre o b = true -> total (run_op o b).
-Proof. intros Hl Hw Hp. destruct (op_step lo hi o b Hl Hw Hp) as (b' & E & _). rewrite E. exact I. Qed.
-
-(* ... nor does any sequence of operations whose preconditions hold along the run *)
-Lemma buffer_run_no_panic_lemma lo hi os b : (level b =? 2) = false -> WF lo hi b = true -> pres_hold os b -> total (run_ops os b).
-Proof. intros Hl Hw Hp. destruct (buffer_ops_preserve_wf_lemma lo hi os b Hl Hw Hp) as (b' & E & _). rewrite E. exact I. Qed.
-
 (* ---------- C18: what setCluster does to the glyph flags in merges and deletions ---------- *)
 
 (* g' is g, or g moved to cluster c with its three glyph flags REPLACED by m (setCluster(c, m) on a glyph of another cluster) *)
@@ -1013,8 +950,8 @@ Proof.
     pose proof (span_eq_spec (cl x) r) as S. destruct (span_eq (cl x) r) as [a z]. destruct S as (Er & _).
     destruct (pf_loop f flip clear z) as [z'| | |] eqn:Ez'; cbn [bind] in E; try discriminate E.
     injection E as <-. rewrite Er. cbn [cls map app cl]. f_equal. fold (cls (a ++ z)).
-    change (map cl (map (fun x0 => mkG (cl x0) (cluster_mask flip clear (x :: a)) 0 (cp x0) (gid x0)) a ++ z'))
-      with (cls (map (fun x0 => mkG (cl x0) (cluster_mask flip clear (x :: a)) 0 (cp x0) (gid x0)) a ++ z')).
+    change (map cl (map (fun x0 => mkGX (cl x0) (cluster_mask flip clear (x :: a)) 0 (cp x0) (gid x0) (up x0) (gp x0)) a ++ z'))
+      with (cls (map (fun x0 => mkGX (cl x0) (cluster_mask flip clear (x :: a)) 0 (cp x0) (gid x0) (up x0) (gp x0)) a ++ z')).
     rewrite !cls_app, (IH _ _ Ez'). f_equal. unfold cls. rewrite map_map. reflexivity.
 Qed.
 
@@ -1027,7 +964,7 @@ Proof.
     pose proof (span_eq_spec (cl x) r) as S. destruct (span_eq (cl x) r) as [a z]. destruct S as (Er & Ha & Ez & _).
     cbn [cls map] in Hm. destruct (dropeq_sorted rtl (cl x) (cls r) Hm) as [Hmz Hstrict]. rewrite <- Ez in Hmz, Hstrict.
     destruct (pf_loop f flip clear z) as [z'| | |] eqn:Ez'; cbn [bind] in E; try discriminate E.
-    assert (El' : l' = map (fun y => mkG (cl y) (cluster_mask flip clear (x :: a)) 0 (cp y) (gid y)) (x :: a) ++ z') by (injection E as <-; reflexivity).
+    assert (El' : l' = map (fun y => mkGX (cl y) (cluster_mask flip clear (x :: a)) 0 (cp y) (gid y) (up y) (gp y)) (x :: a) ++ z') by (injection E as <-; reflexivity).
     clear E. subst l'.
     assert (Hblk : forall y, In y (x :: a) -> cl y = cl x).
     { intros y [<-|Hy]; [reflexivity|]. rewrite Forall_forall in Ha. exact (Ha y Hy). }
@@ -1113,17 +1050,6 @@ Proof.
     unfold set_cluster_last. apply Forall2_map_range; [apply mrel_refl|apply mrel_set|lia..].
 Qed.
 
-(* executable form of pres_hold (for examples) *)
-Fixpoint pres_ok (os : list op) (b : buffer) : bool :=
-  match os with
-  | [] => true
-  | o :: r => pre o b && match run_op o b with Ok b' => pres_ok r b' | _ => false end
-  end.
-Lemma pres_ok_sound : forall os b, pres_ok os b = true -> pres_hold os b.
-Proof.
-  induction os as [|o r IH]; intros b H; [exact I|]. cbn [pres_ok] in H. apply andb_prop in H. destruct H as [H1 H2].
-  split; [exact H1|]. intros b' E. rewrite E in H2. apply IH. exact H2.
-Qed.
 
 (* ---------- C18: every interior flag setter marks exactly the interior of its window ---------- *)
 
